@@ -7,6 +7,9 @@
  *      5 prf_short range check       symbolic inlen/outlen (64-bit): -1 iff either > 16, output untouched
  *      6 hmac (FAM)                  key KLEN, message MLEN
  *      7 kmac (FAM)                  key KLEN, message MLEN, custom CLEN, output OUTLEN
+ *      8 prf fixed, declared length  incremental API: ascon_prf_fixed_init with a SYMBOLIC declared output length
+ *                                    (every value below 2^29, where 8*length fits the 32-bit IV field), absorb MLEN,
+ *                                    squeeze the first OUTLEN bytes: equal to the model whose IV carries 8*length
  */
 #include "vh.h"
 #include "spec.h"
@@ -88,6 +91,17 @@ void harness(void)
     ascon_kmaca(key, KLEN, msg, MLEN, CLEN > 0 ? custom : (const unsigned char *)0, CLEN, out, OUTLEN);
 #endif
     spec_kmac(FAM, exp, OUTLEN, key, KLEN, msg, MLEN, custom, CLEN, OUTLEN == 32);
+#elif MODE == 8
+    {
+        size_t fl = nondet_size();
+        ascon_prf_state_t st;
+        ASSUME(fl < (((size_t)1) << 29));
+        ascon_prf_fixed_init(&st, key, fl);
+        ascon_prf_absorb(&st, msg, MLEN);
+        ascon_prf_squeeze(&st, out, OUTLEN);
+        ascon_prf_free(&st);
+        spec_prf(exp, OUTLEN, (uint32_t)(fl * 8U), msg, MLEN, key);
+    }
 #endif
     ok = vh_eq_bytes(out, exp, OUTLEN);
     CHECK(ok, "output equals the specified function");
